@@ -110,6 +110,15 @@ static void gen_mul(opcase_t *c, rng_t *r, int maxdim) {
     if (m > 300) m = rng_int(r, 1, 300);
     if (l > 300) l = rng_int(r, 1, 300);
   }
+  /* B far wider than the L2-derived table budget (more than 2 * L2/64 words): the automatic k of the Four-Russians product starts
+   * below zero there; affordable for the smallest cache triple only (65 537+ columns), few rows, automatic k */
+  if ((v == V_MUL_M4RM || v == V_ADDMUL_M4RM || v == V_MUL || v == V_ADDMUL) && maxdim >= 200 && GC.l3 <= 131072 && rng_chance(r, 1, 90)) {
+    m = rng_int(r, 16, 40);
+    l = rng_int(r, 64, 90);
+    n = 65537 + rng_int(r, 0, 3000);
+    k = 0;
+    hx_tag("mul_B_beyond_l2");
+  }
   int pa = gen_pat(r), pb = gen_pat(r);
   /* both factors as differently shaped views anchored at the same cell of one matrix (M[0:m,0:l] * M[0:l,0:n]): distinct objects with
    * the same data pointer - must NOT be mistaken for the squaring case */
